@@ -124,12 +124,34 @@ func synthType(fi, pi, variant int) string {
 
 // synth builds a characteristic the way an application builds a custom one.
 func synth(format string, ps []string, bounded, getfn bool, typ string) *characteristic.Characteristic {
+	return synthHow(format, ps, bounded, getfn, typ, false)
+}
+
+// synthHow with inPlace: the characteristic is created with all three permissions, is asked for them once, and the
+// application then establishes its own set by overwriting the entries of that very slice (same length; entries that are
+// not needed become "hd", which grants nothing) before it sets a value.  What counts is what Perms says now.
+func synthHow(format string, ps []string, bounded, getfn bool, typ string, inPlace bool) *characteristic.Characteristic {
 	p := append([]string{}, ps...)
+	narrow := func(c *characteristic.Characteristic) {}
+	if inPlace {
+		p = []string{"pr", "pw", "ev"}
+		narrow = func(c *characteristic.Characteristic) {
+			_, _, _ = c.IsReadable(), c.IsWritable(), c.IsObservable()
+			for i := range c.Perms {
+				if i < len(ps) {
+					c.Perms[i] = ps[i]
+				} else {
+					c.Perms[i] = "hd"
+				}
+			}
+		}
+	}
 	switch format {
 	case "bool":
 		c := characteristic.NewBool(typ)
 		c.Format = format
 		c.Perms = p
+		narrow(c.Characteristic)
 		c.SetValue(false)
 		if getfn {
 			c.OnValueRemoteGet(func() bool { return true })
@@ -139,6 +161,7 @@ func synth(format string, ps []string, bounded, getfn bool, typ string) *charact
 		c := characteristic.NewInt(typ)
 		c.Format = format
 		c.Perms = p
+		narrow(c.Characteristic)
 		if bounded {
 			c.SetMinValue(0)
 			c.SetMaxValue(200)
@@ -153,6 +176,7 @@ func synth(format string, ps []string, bounded, getfn bool, typ string) *charact
 		c := characteristic.NewFloat(typ)
 		c.Format = format
 		c.Perms = p
+		narrow(c.Characteristic)
 		if bounded {
 			c.SetMinValue(-50)
 			c.SetMaxValue(150)
@@ -167,6 +191,7 @@ func synth(format string, ps []string, bounded, getfn bool, typ string) *charact
 		c := characteristic.NewString(typ)
 		c.Format = format
 		c.Perms = p
+		narrow(c.Characteristic)
 		c.SetValue("initial")
 		if getfn {
 			c.OnValueRemoteGet(func() string { return canaryString })
@@ -176,6 +201,7 @@ func synth(format string, ps []string, bounded, getfn bool, typ string) *charact
 		c := characteristic.NewBytes(typ)
 		c.Format = format
 		c.Perms = p
+		narrow(c.Characteristic)
 		c.SetValue([]byte{1, 2, 3})
 		if getfn {
 			c.OnValueGet(func() interface{} { return base64.StdEncoding.EncodeToString([]byte(canaryString)) })
@@ -227,6 +253,10 @@ func buildSubjects() []subject {
 			if numeric {
 				out = append(out, subject{Name: "synthetic/" + f + "/" + permName(ps) + "/bounded", Kind: "synthetic", Format: f,
 					make: func() *characteristic.Characteristic { return synth(f, ps, true, false, synthType(fi, pi, 1)) }})
+			}
+			if len(ps) <= 3 {
+				out = append(out, subject{Name: "synthetic/" + f + "/" + permName(ps) + "/narrowed-in-place", Kind: "synthetic", Format: f,
+					make: func() *characteristic.Characteristic { return synthHow(f, ps, numeric, false, synthType(fi, pi, 3), true) }})
 			}
 			out = append(out, subject{Name: "synthetic/" + f + "/" + permName(ps) + "/getfn", Kind: "synthetic", Format: f, GetFn: true,
 				make: func() *characteristic.Characteristic { return synth(f, ps, numeric, true, synthType(fi, pi, 2)) }})
